@@ -97,7 +97,9 @@ def _tree_hash(repo, flags):
     names.append(os.path.join(repo, 'config.h'))
     for p in names:
         if os.path.exists(p):
-            h.update(p.encode())
+            # keyed by content and file name only (not by where the tree lives): a scratch copy with the same sources
+            # shares the extraction
+            h.update(os.path.relpath(p, repo).encode())
             with open(p, 'rb') as f:
                 h.update(f.read())
     return h.hexdigest()[:24]
@@ -141,6 +143,8 @@ def extract(repo=None, extra_defs=(), jobs=16):
         msg = '; '.join('%s rc=%d %s' % (s, rc, err.strip().splitlines()[-1] if err.strip() else '') for s, rc, err in bad)
         shutil.rmtree(tmp, ignore_errors=True)
         raise AnalysisBroken('IR extraction failed: ' + msg)
+    with open(os.path.join(tmp, 'ROOT'), 'w') as f:
+        f.write(repo)
     with open(os.path.join(tmp, 'OK'), 'w') as f:
         f.write(' '.join(flags))
     try:
@@ -184,6 +188,17 @@ def walk(n):
             for v in reversed(x):
                 if isinstance(v, (dict, list)):
                     stack.append(v)
+
+
+def extraction_root(irdir, repo):
+    """the tree the cached IR was extracted from (a scratch copy with identical sources shares the cache entry): file names
+    recorded in the IR are relative to it"""
+    try:
+        with open(os.path.join(irdir, 'ROOT')) as f:
+            r = f.read().strip()
+            return r or repo
+    except OSError:
+        return repo
 
 
 class TU:
@@ -292,7 +307,7 @@ class Program:
         for s in srcs:
             with open(os.path.join(irdir, s + '.json')) as f:
                 data = json.load(f)
-            tu = TU(s, data, repo, None)
+            tu = TU(s, data, extraction_root(irdir, repo), None)
             self.tus[s] = tu
             self.templates[s] = data['templates']
             for t in data['templates']:
